@@ -56,6 +56,7 @@ def run_world(aiu, w, prefix=(), expect=None):
     def loop_thread():
         async def main():
             buf = aiu.buffer_until_timeout(func, timeout=T)
+            shared['loop'] = asyncio.get_running_loop()
             shared['buf'] = buf
             for gap, x in w['own']:
                 if gap:
@@ -74,6 +75,10 @@ def run_world(aiu, w, prefix=(), expect=None):
             while 'buf' not in shared:
                 sched.spin()
             buf = shared['buf']
+            if spec.get('current_loop'):
+                # this thread has the buffer's loop as ITS current event loop (the thread that created the loop
+                # and then handed it to loop_in_thread, as in the library's doctests) without running it
+                asyncio.set_event_loop(shared['loop'])
             if spec['offset']:
                 sched.sleep(spec['offset'])
             mine = []
@@ -101,6 +106,7 @@ def run_world(aiu, w, prefix=(), expect=None):
     for fi, spec in enumerate(w['foreign']):
         sched.spawn(foreign(fi, spec), name=f'foreign{fi}')
     aborted = sched.run()
+    shared.clear()
     x = tx.Execution()
     x.choices, x.aborted, x.trace, x.sched = sched.choices, aborted, sched.trace, sched
     x.leaked = getattr(sched, 'leaked', 0)
@@ -200,6 +206,13 @@ def worlds(tier, with_wait):
                 for wait in ((None,) if not with_wait else (True,)):
                     out.append(({'own': [(0.0, 100)], 'own_wait': ow, 'dur': dur, 'fails': (),
                                  'foreign': [{'offset': ow + dur, 'subs': subs, 'wait': wait}]}, 2))
+    # a submitting thread whose current (not running) event loop is the buffer's loop
+    for own in ([], [(0.0, 100)]):
+        for o in (0.0, T / 4, T + T / 4, 3 * T):
+            for subs in ([('put', 1)], [('map', (1, 2))], [('put', 1), ('put', 2)]):
+                for wait in ((None,) if not with_wait else (True, False)):
+                    out.append(({'own': own, 'dur': 0.0, 'fails': (),
+                                 'foreign': [{'offset': o, 'subs': subs, 'wait': wait, 'current_loop': True}]}, 1))
     # two foreign threads
     for o2 in (0.0, T):
         for wait in ((None,) if not with_wait else (True,)):
